@@ -507,6 +507,19 @@ func c18MinMax(c *Ctx, fd *ast.FuncDecl, name string, smaller, intFam bool) {
 	}
 	lit, ok := fold.Args[1].(TLit)
 	fl, isFl := lit.Node.(*ast.FuncLit)
+	var boundRecv Term
+	if mv, isMV := fold.Args[1].(TCall); isMV && mv.Name == "methodvalue" && mv.Epoch == -1 && mv.Fun != nil && mv.Recv != nil {
+		// a method of a struct made in this call, bound to it (search.next): its body with the receiver bound to that struct is the
+		// closure; only a pointer receiver shares the struct's fields with the caller
+		if md := c.DeclOf(mv.Fun); md != nil && md.Body != nil && md.Recv != nil && len(md.Recv.List) == 1 && len(md.Recv.List[0].Names) == 1 {
+			if _, isPtr := c.typeOf(md.Recv.List[0].Type).(*types.Pointer); isPtr {
+				fl, ok, isFl = &ast.FuncLit{Type: md.Type, Body: md.Body}, true, true
+				foldEnv = copyEnv(foldEnv)
+				foldEnv[c.Info.Defs[md.Recv.List[0].Names[0]]] = mv.Recv
+				boundRecv = mv.Recv
+			}
+		}
+	}
 	if !ok || !isFl {
 		rob.Undecided("the reducer is not a function literal")
 		return
@@ -598,6 +611,50 @@ func c18MinMax(c *Ctx, fd *ast.FuncDecl, name string, smaller, intFam bool) {
 		// the flag starts false
 		if t, ok := foldEnv[present]; ok {
 			good = isConstBoolTerm(simplify(t), false) // its value when the fold starts
+		} else if boundRecv != nil {
+			// a field of the struct the reducer is bound to, not written since the struct was made: what its literal gives it
+			good = false
+			b := boundRecv
+			if a, isA := b.(TAddr); isA {
+				b = a.X
+			}
+			if rl, isL := b.(TLit); isL && rl.Type != nil {
+				if stt, isS := rl.Type.Underlying().(*types.Struct); isS {
+					for i := 0; i < stt.NumFields(); i++ {
+						if stt.Field(i).Pos() == present.Pos() {
+							good = isConstBoolTerm(simplify(c.NewSX().fieldInit(structObj{lit: &rl}, stt.Field(i))), false)
+						}
+					}
+				}
+			}
+		} else if strings.HasPrefix(present.Name(), "·") {
+			// a field of a struct made on the path, not written before the fold: the zero value of a struct declared without a
+			// literal (·field@var…), or what its literal gives the field (·field@lit<n>: the literal is among the captured values)
+			good = false
+			nm := present.Name()
+			switch at := strings.LastIndex(nm, "@"); {
+			case at >= 0 && strings.HasPrefix(nm[at+1:], "var"):
+				good = true
+			case at >= 0 && strings.HasPrefix(nm[at+1:], "lit"):
+				for _, t := range foldEnv {
+					if t == nil {
+						continue
+					}
+					collectSubterms(t, func(u Term) {
+						rl, isL := u.(TLit)
+						if !isL || rl.Type == nil || "lit"+itoa(rl.Fresh) != nm[at+1:] {
+							return
+						}
+						if stt, isS := rl.Type.Underlying().(*types.Struct); isS {
+							for i := 0; i < stt.NumFields(); i++ {
+								if stt.Field(i).Pos() == present.Pos() {
+									good = isConstBoolTerm(simplify(c.NewSX().fieldInit(structObj{lit: &rl}, stt.Field(i))), false)
+								}
+							}
+						}
+					})
+				}
+			}
 		} else {
 			good = c.declaredZeroObj(fd, present)
 		}
